@@ -455,10 +455,11 @@ def twice_included_cli(ctx, res):
 CFG_HEADER = """From Coq Require Import List Arith Bool. Import ListNotations.
 From TaskctlV Require Import Model.Sched.
 Definition ranb (x : status) := match x with Done | Error => true | _ => false end.
-Definition cfg_ok (c : config * list bool * (list bool * bool)) : bool :=
-  let '(cf, outs, (ran, failed)) := c in
+(* unobs: stages whose task leaves no mark even when it is attempted (their context cannot be started) *)
+Definition cfg_ok (c : config * list bool * list bool * (list bool * bool)) : bool :=
+  let '(cf, outs, unobs, (ran, failed)) := c in
   let f := final cf (fun i => nth i outs true) in
-  forallb (fun i => Bool.eqb (ranb (f i)) (nth i ran false)) (seq 0 (length cf))
+  forallb (fun i => nth i unobs false || Bool.eqb (ranb (f i)) (nth i ran false)) (seq 0 (length cf))
   && Bool.eqb failed (existsb (fun i => status_eqb (f i) Error && negb (allow_of cf i)) (seq 0 (length cf))).
 """
 CFG_FOOTER = """
@@ -479,15 +480,26 @@ def config_cli(ctx, res):
         sts = []
         for i in range(n):
             sts.append({"kind": rng.choice(["task", "task", "pipeline"]), "ok": rng.random() < 0.6, "allow": rng.random() < 0.4, "cond": rng.choice(["none", "none", "none", "false"]),
-                        "deps": sorted(rng.sample(range(i), rng.randint(0, min(i, 2))))})
+                        "deps": sorted(rng.sample(range(i), rng.randint(0, min(i, 2)))), "broken": False})
+        if k % 3 == 1:          # several stages run in a context whose `up` fails: every one of them fails (not only the first to arrive)
+            for st in sts:
+                if st["kind"] == "task" and rng.random() < 0.6:
+                    st["broken"], st["ok"] = True, False
         tasks, pipes, stages = {}, {}, []
         for i, st in enumerate(sts):
             tasks["t%d" % i] = {"command": ['touch "$PROJ/m.%d"; exit %d' % (i, 0 if st["ok"] else 3)]}
+            if st["broken"]:
+                tasks["t%d" % i]["context"] = "broken"
             d = {"name": "s%d" % i}
             if st["kind"] == "task":
                 d["task"] = "t%d" % i
             else:
-                pipes["q%d" % i] = [{"task": "t%d" % i}]
+                inner = {"task": "t%d" % i}
+                off = [j2 for j2, o in enumerate(sts) if o["cond"] == "false" and j2 != i]
+                if off and rng.random() < 0.6:
+                    # the included pipeline's stage is NAMED like a stage of the including pipeline whose condition is false; its own condition is true
+                    inner.update(name="s%d" % rng.choice(off), condition="true")
+                pipes["q%d" % i] = [inner]
                 d["pipeline"] = "q%d" % i
             if st["allow"]:
                 d["allow_failure"] = True
@@ -498,7 +510,7 @@ def config_cli(ctx, res):
             stages.append(d)
         rng.shuffle(stages)
         pipes["p"] = stages
-        jobs.append({"id": k, "files": {"cfg.json": clilib.jcfg({"tasks": tasks, "pipelines": pipes})}, "argv": ["-c", "cfg.json", "--raw", "run", "pipeline", "p"],
+        jobs.append({"id": k, "files": {"cfg.json": clilib.jcfg({"contexts": {"broken": {"up": ["exit 7"]}}, "tasks": tasks, "pipelines": pipes})}, "argv": ["-c", "cfg.json", "--raw", "run", "pipeline", "p"],
                      "keep": ["m.%d" % i for i in range(n)], "timeout": 25, "sts": sts})
     out = clilib.run_cli(ctx.workdir + "/cfgcli", jobs, timeout=25)
     items = []
@@ -511,8 +523,13 @@ def config_cli(ctx, res):
             res.violations.append({"class": None, "what": "a pipeline built from a configuration file hung or crashed", "case": {"kind": "config-cli", "config": json.loads(j["files"]["cfg.json"])},
                                    "observed": (r.get("err") or "")[-500:]})
             continue
+        ranaway = [i for i, st in enumerate(j["sts"]) if st.get("broken") and ("m.%d" % i) in r["files"]]
+        if ranaway:
+            res.violations.append({"class": None, "what": "a stage whose context could not be started ran its task all the same", "case": {"kind": "config-cli", "stages": j["sts"], "config": json.loads(j["files"]["cfg.json"])},
+                                   "observed": {"ran": sorted(r["files"]), "rc": r["rc"]}})
+            continue
         cf = vlib.clist(j["sts"], lambda st: "(mkStage %s %s %s)" % (vlib.clist(st["deps"], str), vlib.cbool(st["allow"]), {"none": "CNone", "false": "CFalse"}[st["cond"]]))
-        items.append("(%d, (%s, %s, (%s, %s)))" % (j["id"], cf, vlib.clist([st["ok"] for st in j["sts"]], vlib.cbool),
+        items.append("(%d, (%s, %s, %s, (%s, %s)))" % (j["id"], cf, vlib.clist([st["ok"] for st in j["sts"]], vlib.cbool), vlib.clist([bool(st.get("broken")) for st in j["sts"]], vlib.cbool),
                                                    vlib.clist([("m.%d" % i) in r["files"] for i in range(len(j["sts"]))], vlib.cbool), vlib.cbool(r["rc"] != 0)))
     bad = set()
     for rc, o, start, cnt in vlib.coq_eval_sharded(ctx.workdir, "cases_cfgcli", CFG_HEADER, items, lambda: CFG_FOOTER, shard=300):
@@ -742,6 +759,7 @@ def run(ctx, prop):
     if prop == "C03" and not ctx.replay_cases:
         nested_conderr_cli(ctx, res)
         twice_included_cli(ctx, res)
+        config_cli(ctx, res)          # every eligible stage of a pipeline built from a configuration file runs (and only those)
     if prop == "C04" and not ctx.replay_cases:
         nested_overlap_cli(ctx, res)
         real_overlap_cli(ctx, res)
